@@ -96,6 +96,12 @@ def run(ctx):
                           file=R.cmod.relpath, line=e["lineno"])
     ctx.need("E1", "reference bindings", n, 39)
 
+    gates(ctx, R)
+
+
+def gates(ctx, R):
+    table = R.table()
+    by_name = {e["name"]: e for e in table.values() if not e["abstract"]}
     # ---- E2 ----------------------------------------------------------------------
     ctx.rule("E2", "lookup: instance returned only past the extension test (bypass only by checkexists)")
     lk = R.lookup
